@@ -74,7 +74,7 @@ def record():
     out = os.path.join(tmp, 'suite.ndjson')
     env = dict(os.environ, PYTHONPATH=os.path.join(common.VERIF, 'harness') + ':' + common.VERIF + ':' + common.REPO, VERIF_RECORD_FILE=out)
     env.pop(common.GUARD, None)
-    p = subprocess.run(['/venv/bin/python', '-m', 'pytest', '-q', '-p', 'no:cacheprovider', '-p', 'verif_recorder', '-x', '--timeout=600'],
+    p = subprocess.run(['/venv/bin/python', '-m', 'pytest', '-q', '-p', 'no:cacheprovider', '-p', 'verif_recorder', '--timeout=600'],
                        cwd=common.REPO, env=env, capture_output=True, text=True)
     lines = []
     meta = {}
@@ -92,7 +92,8 @@ def part(chk, pid):
     """validate the suite events owned by property pid"""
     lines, meta, tail = record()
     if not lines:
-        chk.machinery('suite recorder produced no events (%s)' % tail)
+        # (a tree whose own suite does not run is not this property's business; say so in the evidence)
+        chk.notes['suite_corpus'] = {'pytest': tail, 'events': 0}
         return
     mine, stats = [], {}
     for l in lines:
